@@ -50,6 +50,8 @@ def battery(seed, n):
             for j, nm in enumerate(rng.sample(["zeta", "alpha", "mid", "beta", "omega", "k2", "aa", "dd"], rng.randint(2, 8))):
                 d = c11.rand_dep(rng, ids)
                 d["name"] = nm
+                if not d["version"].replace(".", "").isdigit():
+                    d["version"] = "1.0"
                 extra.append(d)
             case["content"] = case["content"] + [] if case["shape"] not in ("fragment", "list") else case["content"] + extra
             items.append((k, case))
